@@ -77,28 +77,28 @@ Qed.
 
 Theorem rename_exact_view cfg w e cmd um :
   cfg_ok cfg = true -> fs_ok cfg (wo_fs w) = true -> paths_distinct w = true ->
-  no_stale_tmp cfg (wo_fs w) cmd = true -> e_pretend e = false ->
+  e_pretend e = false ->
   let v := view_of_model cfg w e cmd um in
   match v_cmd v, v_res v with
   | CRename a n, ROk => C02.rename_exact cfg (wo_fs w) (wo_fs (v_after v)) a n
   | _, _ => true
   end = true.
 Proof.
-  intros Hcfg Hfs Hnd Hst Hnp v. subst v. rewrite view_model_eq. cbv zeta. cbn [v_cmd v_res v_after wo_fs].
+  intros Hcfg Hfs Hnd Hnp v. subst v. rewrite view_model_eq. cbv zeta. cbn [v_cmd v_res v_after wo_fs].
   destruct cmd; try reflexivity.
-  pose proof (rename_exact_run e cfg um a b0 (start w) Hcfg Hfs Hnd Hst Hnp) as H.
+  pose proof (rename_exact_run e cfg um a b0 (start w) Hcfg Hfs Hnd Hnp) as H.
   destruct (run_command e cfg um (CRename a b0) (start w)) as [[r| | | |] s']; try reflexivity. exact H.
 Qed.
 
 (* all four conjuncts of step_spec together *)
 Theorem step_spec_view cfg w e cmd um :
   cfg_ok cfg = true -> fs_ok cfg (wo_fs w) = true -> names_distinct cfg w = true ->
-  paths_distinct w = true -> no_stale_tmp cfg (wo_fs w) cmd = true ->
+  paths_distinct w = true ->
   C02.forest_ok cfg (wo_fs w) = true ->
   in_scope e cmd (v_res (view_of_model cfg w e cmd um)) = true ->
   C02.step_spec cfg w (view_of_model cfg w e cmd um) = true.
 Proof.
-  intros Hcfg Hfs Hnd Hpd Hst HF Hsc. unfold C02.step_spec.
+  intros Hcfg Hfs Hnd Hpd HF Hsc. unfold C02.step_spec.
   pose proof (no_diverge cfg w e cmd um HF Hnd) as H1.
   pose proof (forest_preserved_view cfg w e cmd um Hcfg Hfs Hnd Hsc) as H2.
   pose proof (breaking_refused_view cfg w e cmd um) as H3. cbv zeta in H2, H3.
@@ -107,7 +107,7 @@ Proof.
   rewrite Ee. destruct (e_pretend e) eqn:Hp; [reflexivity|]. cbn [negb andb].
   destruct (e_fault e); [|reflexivity|reflexivity]. cbn [negb orb].
   pose proof (rebase_exact_view cfg w e cmd um Hcfg Hfs Hpd Hp) as H4. cbv zeta in H4.
-  pose proof (rename_exact_view cfg w e cmd um Hcfg Hfs Hpd Hst Hp) as H5. cbv zeta in H5.
+  pose proof (rename_exact_view cfg w e cmd um Hcfg Hfs Hpd Hp) as H5. cbv zeta in H5.
   assert (Ec : v_cmd (view_of_model cfg w e cmd um) = cmd) by (rewrite view_model_eq; reflexivity).
   rewrite Ec in *. destruct cmd; try reflexivity; [exact H5|exact H4].
 Qed.
